@@ -86,12 +86,14 @@ def variants(algo, tier):
                 ("mask", {"init": "random", "mask": "MASK"}, 4 if q else 8),
                 # the second tensor-algebra implementation is a configuration like any other
                 ("einsum-normalize", {"init": "random", "normalize_factors": True, "tenalg": "einsum"}, 5 if q else 8),
-                ("einsum-plain-svd", {"init": "svd", "tenalg": "einsum"}, 4 if q else 8)]
+                ("einsum-plain-svd", {"init": "svd", "tenalg": "einsum"}, 4 if q else 8),
+                ("memory-mttkrp-normalize", {"init": "random", "normalize_factors": True, "mttkrp": "memory"}, 5 if q else 8)]
     elif algo == "non_negative_parafac_hals":
         out += [("svd", {"init": "svd"}, 3 if q else 6), ("random", {"init": "random"}, 3 if q else 6),
                 ("normalize", {"init": "random", "normalize_factors": True}, 3 if q else 5),
                 ("nn-mode0", {"init": "random", "nn_modes": [0]}, 3 if q else 5),
-                ("einsum-normalize", {"init": "random", "normalize_factors": True, "tenalg": "einsum"}, 3 if q else 5)]
+                ("einsum-normalize", {"init": "random", "normalize_factors": True, "tenalg": "einsum"}, 3 if q else 5),
+                ("memory-mttkrp-normalize", {"init": "random", "normalize_factors": True, "mttkrp": "memory"}, 3 if q else 5)]
     elif algo == "tucker":
         out += [("svd", {"init": "svd"}, 4 if q else 8), ("random", {"init": "random"}, 4 if q else 8),
                 ("einsum-random", {"init": "random", "tenalg": "einsum"}, 4 if q else 6),
@@ -305,7 +307,7 @@ class C07(Check):
                     ctx.violation(f"{tag}/reported-errors-increase", f"{case}: reported errors {seq} increase at index {j}")
                     break
         # ---------------- differential reference sweep (non-initial states)
-        if algo == "parafac" and case["variant"] in ("plain-svd", "plain-random", "normalize-random", "normalize-svd", "l2reg", "fixed-mode0", "einsum-normalize", "einsum-plain-svd"):
+        if algo == "parafac" and case["variant"] in ("plain-svd", "plain-random", "normalize-random", "normalize-svd", "l2reg", "fixed-mode0", "einsum-normalize", "einsum-plain-svd", "memory-mttkrp-normalize"):
             modes = None if "fixed" not in case["variant"] else [m for m in range(len(shape)) if m != 0]
             for k in range(K):
                 if not (conditioned(chain[k]) and conditioned(chain[k + 1])):
